@@ -314,4 +314,192 @@ def configure (tasks : List Task) : Except Err (List Props) :=
   | .error e => .error e
   | .ok bm => mapE (taskProps bm) tasks
 
+/-! ## workflow templates: iterators and per-instance resolution
+
+  Mirrors core/workflow/iteratorrole.go (`expandTemplate`: one generated role per
+  value of the range, `generateRole` = `copy()` of the template + the iteration
+  variable in `Locals`), rolebase.go `copy()` (the generated role gets its OWN
+  `Connect` / `Bind` slices) and `wrapBindAndConnectFields` + the STAGE5 pass of
+  `aggregatorRole/taskRole.ProcessTemplates` (every `connect[i].target` and every
+  `bind[i].global` is read from and written back to the role's own slice, resolved
+  against the role's own variable stack and object stack).
+
+  The template engine itself (fasttemplate + expr) is a parameter: an expression
+  is a list of segments — literal text, `{{ var }}`, `{{ Parent().Path }}`,
+  `{{ Parent().Name }}`, `{{ This().Path }}`, `{{ This().Name }}` — and evaluating
+  it concatenates the segments' values in the role's context. -/
+
+/-- One piece of a templated string. -/
+inductive Seg where
+  | lit (s : String)
+  | var (v : String)     -- `{{ v }}`
+  | parentPath           -- `{{ Parent().Path }}`
+  | parentName           -- `{{ Parent().Name }}`
+  | thisPath             -- `{{ This().Path }}`  (STAGE5 only)
+  | thisName             -- `{{ This().Name }}`  (STAGE5 only)
+  deriving DecidableEq, Repr, Inhabited
+
+abbrev Tmpl := List Seg
+
+/-- What a role sees while its templates are resolved: the iteration variables in
+    force (innermost first: `Locals` beat everything inherited), its parent role's
+    resolved path and name, and (from STAGE5 on) its own resolved name. -/
+structure Ctx where
+  env : List (String × String)
+  parentPath : String
+  parentName : String
+  self : String
+  deriving DecidableEq, Repr, Inhabited
+
+/-- The context of the root role (hung under the environment's ParentAdapter). -/
+def Ctx.top : Ctx := { env := [], parentPath := "", parentName := "", self := "" }
+
+/-- `locals[i.For.GetVar()] = localValue` for one generated role. -/
+def Ctx.push (c : Ctx) (v x : String) : Ctx := { c with env := (v, x) :: c.env }
+
+/-- The role's own name is known (STAGE4 done). -/
+def Ctx.named (c : Ctx) (nm : String) : Ctx := { c with self := nm }
+
+/-- The context of the children of a role called `nm` in context `c`. -/
+def Ctx.child (c : Ctx) (nm : String) : Ctx :=
+  { env := c.env, parentPath := joinPath c.parentPath nm, parentName := nm, self := "" }
+
+def Seg.inst (c : Ctx) : Seg → String
+  | .lit s => s
+  | .var v => (Assoc.get c.env v).getD ""
+  | .parentPath => c.parentPath
+  | .parentName => c.parentName
+  | .thisPath => joinPath c.parentPath c.self
+  | .thisName => c.self
+
+/-- Evaluate a templated string in a context. -/
+def Tmpl.inst (c : Ctx) : Tmpl → String
+  | [] => ""
+  | s :: r => s.inst c ++ Tmpl.inst c r
+
+/-- A `connect` declaration as written in a workflow template. -/
+structure OutT where
+  name : String
+  transport : Transport
+  target : Tmpl
+  deriving DecidableEq, Repr, Inhabited
+
+/-- A `bind` declaration as written in a workflow template (only `global` is templated). -/
+structure InT where
+  name : String
+  transport : Transport
+  addressing : Addressing
+  target : String
+  global : Tmpl
+  deriving DecidableEq, Repr, Inhabited
+
+/-- The declaration a role holds once its own copy has been resolved in its own context. -/
+def OutT.inst (c : Ctx) (o : OutT) : Outbound :=
+  { name := o.name, transport := o.transport, target := o.target.inst c }
+
+def InT.inst (c : Ctx) (b : InT) : Inbound :=
+  { name := b.name, transport := b.transport, addressing := b.addressing, target := b.target,
+    global := b.global.inst c }
+
+/-- Role templates: like `Forest`, with templated names / targets / aliases, plus
+    iterator roles (`for:` over a list of values around ONE role template). -/
+inductive TForest where
+  | nil : TForest
+  | agg (name : Tmpl) (bind : List InT) (connect : List OutT) (kids next : TForest) : TForest
+  | task (name : Tmpl) (cls : String) (host : Nat) (bind : List InT) (connect : List OutT) (next : TForest) : TForest
+  | iter (var : String) (vals : List String) (body next : TForest) : TForest
+  deriving Repr, Inhabited
+
+/-- Sibling lists are concatenated (`aggregator.GetRoles` splices the roles an iterator generated
+    into its parent's list, in range order). -/
+def Forest.append : Forest → Forest → Forest
+  | .nil, g => g
+  | .agg n b c kids next, g => .agg n b c kids (next.append g)
+  | .task n cls h b c next, g => .task n cls h b c (next.append g)
+
+/-- Loading a workflow template (`ProcessTemplates`): every role resolves its name, then its OWN
+    copy of its declarations in its OWN context; an iterator contributes one instance of its
+    body per value, each with the iteration variable bound to that value. -/
+def expand (c : Ctx) : TForest → Forest
+  | .nil => .nil
+  | .agg n b co kids next =>
+      let nm := n.inst c
+      .agg nm (b.map (InT.inst (c.named nm))) (co.map (OutT.inst (c.named nm)))
+        (expand (c.child nm) kids) (expand c next)
+  | .task n cls h b co next =>
+      let nm := n.inst c
+      .task nm cls h (b.map (InT.inst (c.named nm))) (co.map (OutT.inst (c.named nm))) (expand c next)
+  | .iter v vals body next =>
+      (vals.foldr (fun x acc => (expand (c.push v x) body).append acc) .nil).append (expand c next)
+
+/-! ### the same as a store of per-role copies (for the order-independence theorem)
+
+  `generateRole` hands every generated role a cell of its own; the STAGE5 pass of a role reads
+  and writes that cell only. `processOrder` runs the passes in any order (the three concurrency
+  switches of the loader only change that order). -/
+
+/-- A role's own declarations (its copy of the template's slices) and its context. -/
+structure Cell where
+  ctx : Ctx
+  connect : List OutT
+  bind : List InT
+  deriving DecidableEq, Repr, Inhabited
+
+/-- The setter of `wrapBindAndConnectFields`: the resolved text replaces the expression. -/
+def OutT.resolve (c : Ctx) (o : OutT) : OutT := { o with target := [.lit (o.target.inst c)] }
+def InT.resolve (c : Ctx) (b : InT) : InT := { b with global := [.lit (b.global.inst c)] }
+
+/-- The STAGE5 pass of one role on its own cell. -/
+def Cell.resolve (x : Cell) : Cell :=
+  { x with connect := x.connect.map (OutT.resolve x.ctx), bind := x.bind.map (InT.resolve x.ctx) }
+
+/-- What `Collect*Channels` later reads out of a cell (own declarations only). -/
+def Cell.read (x : Cell) : List Inbound × List Outbound :=
+  (x.bind.map (InT.inst x.ctx), x.connect.map (OutT.inst x.ctx))
+
+/-- The fresh cells of all generated roles, in tree (pre-)order. -/
+def cells (c : Ctx) : TForest → List Cell
+  | .nil => []
+  | .agg n b co kids next =>
+      let nm := n.inst c
+      { ctx := c.named nm, connect := co, bind := b } :: (cells (c.child nm) kids ++ cells c next)
+  | .task n _ _ b co next =>
+      { ctx := c.named (n.inst c), connect := co, bind := b } :: cells c next
+  | .iter v vals body next =>
+      vals.foldr (fun x acc => cells (c.push v x) body ++ acc) [] ++ cells c next
+
+def modAt {α} (f : α → α) : List α → Nat → List α
+  | [], _ => []
+  | x :: xs, 0 => f x :: xs
+  | x :: xs, i + 1 => x :: modAt f xs i
+
+/-- Run the STAGE5 passes of the roles `ord` names, in that order. -/
+def processOrder (st : List Cell) (ord : List Nat) : List Cell :=
+  ord.foldl (modAt Cell.resolve) st
+
+/-- Own declarations of every role of a loaded tree, in tree (pre-)order. -/
+def ownDecls : Forest → List (List Inbound × List Outbound)
+  | .nil => []
+  | .agg _ b c kids next => (b, c) :: (ownDecls kids ++ ownDecls next)
+  | .task _ _ _ b c next => (b, c) :: ownDecls next
+
+/-- A plain (already resolved) declaration / role tree seen as a template. -/
+def Outbound.toT (o : Outbound) : OutT := { name := o.name, transport := o.transport, target := [.lit o.target] }
+def Inbound.toT (b : Inbound) : InT :=
+  { name := b.name, transport := b.transport, addressing := b.addressing, target := b.target, global := [.lit b.global] }
+
+def Forest.toT : Forest → TForest
+  | .nil => .nil
+  | .agg n b c kids next => .agg [.lit n] (b.map Inbound.toT) (c.map Outbound.toT) kids.toT next.toT
+  | .task n cls h b c next => .task [.lit n] cls h (b.map Inbound.toT) (c.map Outbound.toT) next.toT
+
+/-- `MergeInbound(descriptor.RoleBind, class.Bind)` / `MergeOutbound(RoleConnect, class.Connect)`
+    and the launch's local bind map: the task configureTasks sees. -/
+def mkTask (classes : List (String × Class)) (d : TaskDecl) (path host : String) (loc : BindMap) : Task :=
+  let cls := (Assoc.get classes d.cls).getD { bind := [], connect := [] }
+  { path := path, host := host,
+    inbound := mergeIn d.roleBind cls.bind,
+    outbound := mergeOut d.roleConnect cls.connectLoaded,
+    loc := loc }
+
 end Channels
